@@ -1,11 +1,15 @@
 import Sudachi.Proofs.Layers
 import Sudachi.Proofs.LayersBuild
+import Sudachi.Proofs.LayersLoad
+import Sudachi.Proofs.LayersRefs
 /-!
 # C12 — Layered user dictionaries keep ids, parts of speech and references straight
 
 Model: `Model/Layers.lean` (`WordId`, `Lexicon::lookup`, `LexiconSet::{new, append, lookup, get_word_info_subset,
 update_dict_id}`, `Grammar::{register_pos, merge}`, `handle_user_pos`, `from_cfg_storage` / `merge_user_dictionary`,
-and the dictionary builder's POS numbering).  Quantifiers: every system POS list, every sequence of plugin POS
+the dictionary builder's POS numbering, `validate_entries`, inline resolution) and `Model/LayersLoad.lean` (the order of
+the load steps: connection-cost plugins, OOV POS, connection edits, per user dictionary `update_cost` → `append` →
+`merge`).  `WordId` is modelled at the bit level.  Quantifiers: every system POS list, every sequence of plugin POS
 registrations, every list of user dictionaries (own POS lists of any length, any stored words), every word id.
 -/
 namespace C12
@@ -134,6 +138,74 @@ theorem oov_reports_minus_one (p raw : Nat) (h : widOov p = .ok raw) (D : Dict) 
     unfold asU16
     rw [Nat.mod_eq_of_lt hp]
 
+/-! ## the id at the bit level (4 dictionary bits, 28 word bits) -/
+
+/-- `WordId::new(dic, word)` for every `dic < 16`, `word < 2^28` is the 32-bit number with `dic` in the top four bits and
+`word` in the low 28 (`(dic << 28) | word`, stated with `<<<`/`|||` — the model's `mkRaw` is the literal
+`((dic & 0xf) << 28) | (word & 0x0fffffff)`), and `dic()` (`(raw >> 28) as u8`) / `word()` (`raw & 0x0fffffff`) read the two
+parts back. -/
+theorem wordid_bits (d w : Nat) (hd : d < 16) (hw : w < P28) :
+    widNew d w = .ok ((d <<< 28) ||| w) ∧ (d <<< 28) ||| w < 4294967296 ∧
+    dicOf ((d <<< 28) ||| w) = d ∧ wordOf ((d <<< 28) ||| w) = w := by
+  obtain ⟨h1, h2⟩ := mkRaw_bits d w hd hw
+  rw [← h1]
+  exact ⟨widNew_ok d w hd hw, h2, dicOf_mkRaw d w hd, wordOf_mkRaw d w hw⟩
+
+/-- `update_dict_id` at the bit level: for EVERY owner `d < 16` and every stored 32-bit reference `id` whose dictionary
+bits are not 0, the re-stamped id is `(d << 28) | (id & 0x0fffffff)`: it has dictionary `d` — the compiled dictionary bits
+(1 for `U<n>`/inline references) are masked out, not OR-ed into — and the same word number; system references
+(dictionary bits 0) are left alone. -/
+theorem restamp_bits (d id : Nat) (hd : d < 16) :
+    (dicOf id > 0 →
+      updateDictId [id] d = .ok [(d <<< 28) ||| (id &&& 0x0fffffff)] ∧
+      dicOf ((d <<< 28) ||| (id &&& 0x0fffffff)) = d ∧
+      wordOf ((d <<< 28) ||| (id &&& 0x0fffffff)) = wordOf id ∧ wordOf id < 268435456) ∧
+    (dicOf id = 0 → updateDictId [id] d = .ok [id]) := by
+  have hw : wordOf id < P28 := wordOf_lt id
+  have hmask : id &&& 0x0fffffff = wordOf id := rfl
+  obtain ⟨h1, _⟩ := mkRaw_bits d (wordOf id) hd hw
+  constructor
+  · intro hu
+    rw [hmask, ← h1]
+    refine ⟨?_, dicOf_mkRaw d _ hd, wordOf_mkRaw d _ hw, hw⟩
+    rw [updateDictId_ok [id] d hd]
+    simp [restamp, hu]
+  · intro hs
+    rw [updateDictId_ok [id] d hd]
+    simp [restamp, hs]
+
+/-- What `seeded/C12b` gets wrong, as a theorem about the variant (NOT the code): OR-ing the owner's number into the stored id
+without masking the compiled `1` gives dictionary `d ||| 1` — right for odd positions, the NEXT dictionary for even ones
+(2 ↦ 3, …, 14 ↦ 15 = the OOV marker). -/
+theorem restamp_or_without_mask_counterexample :
+    (∀ d w, d < 16 → w < P28 → dicOf (restampOr d (mkRaw 1 w)) = d ||| 1) ∧
+    dicOf (restampOr 2 (mkRaw 1 7)) = 3 ∧ isOov (restampOr 14 (mkRaw 1 7)) = true ∧
+    dicOf (restamp 2 (mkRaw 1 7)) = 2 ∧ dicOf (restamp 14 (mkRaw 1 7)) = 14 :=
+  ⟨fun d w hd hw => (restampOr_stored d w hd hw).1, by decide, by decide, by decide, by decide⟩
+
+/-- Capacity and the OOV marker are the same boundary: in every reachable set no lexicon has the id 15, so a dictionary word
+never reports −1 and never tests `is_oov`; position 15 — the one a 15th user dictionary would get — is exactly the id
+`WordId::oov` uses. -/
+theorem dictionary_word_never_oov (s : LexSet) (hs : IdsOk s) (i : Nat) (l : Lexicon) (hl : s.lexicons[i]? = some l)
+    (w : Nat) :
+    l.lexId = i ∧ i < 15 ∧ isOov (mkRaw i w) = false ∧ dictionaryId (mkRaw i w) = Int.ofNat i ∧
+    isOov (mkRaw 15 w) = true ∧ dictionaryId (mkRaw 15 w) = -1 := by
+  have hid : l.lexId = i := hs.2.2.2 i l hl
+  have hi : i < 15 := by
+    have h1 := hs.2.1
+    have h2 : i < s.lexicons.length := by
+      by_cases hlt : i < s.lexicons.length
+      · exact hlt
+      · rw [List.getElem?_eq_none (by omega)] at hl; cases hl
+    unfold MAXD at h1; omega
+  have hd := dicOf_mkRaw i w (by omega)
+  have h15 := dicOf_mkRaw 15 w (by omega)
+  have hno : isOov (mkRaw i w) = false := by unfold isOov; rw [hd]; simp; omega
+  have hyes : isOov (mkRaw 15 w) = true := by unfold isOov; rw [h15]; rfl
+  refine ⟨hid, hi, hno, ?_, hyes, ?_⟩
+  · unfold dictionaryId; rw [hno, hd]; rfl
+  · unfold dictionaryId; rw [hyes]; rfl
+
 /-! ## split references -/
 
 /-- Clause "split references inside a user dictionary resolve to words of that same dictionary or of the system
@@ -168,6 +240,84 @@ theorem u_reference_restamped (d n : Nat) (hn : n < P28) :
     rw [dicOf_mkRaw 1 n (by omega), wordOf_mkRaw 1 n hn]
     simp
   · exact restamp_sys d _ (dicOf_mkRaw 0 n (by omega))
+
+/-- `validate_entries` (formerly tied by correspondence only): every reference a successfully compiled user dictionary
+STORES — A split, B split, word structure, whether written `U<n>`, `<n>` or inline — is `(0, n)` with `n` below the word
+count of the dictionary it was compiled against, or `(1, n)` with `n` below its own row count; one word per row.  Both
+versions of `new_user`. -/
+theorem stored_references_in_range (v : PreVariant) (base : Base) (rows : List Row) (b : Built)
+    (h : buildUser v base rows = .ok b) :
+    b.words.length = rows.length ∧
+    ∀ wd ∈ b.words, ∀ t ∈ wd.a ++ wd.b ++ wd.w,
+      (dicOf t = 0 ∧ wordOf t < base.words.length) ∨ (dicOf t = 1 ∧ wordOf t < rows.length) := by
+  unfold buildUser at h
+  cases v <;> exact build_refs_in_range _ base.words rows b h
+
+/-- Clause "split references inside a user dictionary resolve to words of that same dictionary or of the system
+dictionary", END TO END and with EXISTENCE of the target: a user dictionary compiled (either builder version) against a
+base whose word list has the length of the system lexicon, loaded as dictionary `j+1` of any stack: every target the set
+reports for its word `i` (A split, B split, word structure) is `(0, n)` naming an existing word of the system lexicon or
+`(j+1, n)` naming an existing word of the same user dictionary — never another user dictionary, never a word that is not
+there (`lexicons[dic]` / the word-info table are indexed without a check in `get_word_info_subset`). -/
+theorem split_targets_exist (sys : List Pos) (sysLex : Lexicon) (plugs : List (Bool × Pos))
+    (us : List (List Pos × Lexicon)) (D : Dict) (hload : load sys sysLex plugs us = .ok D)
+    (v : PreVariant) (base : Base) (hbase : base.words.length = sysLex.words.length)
+    (j : Nat) (rows : List Row) (b : Built) (own : List Pos) (lex : Lexicon)
+    (hb : buildUser v base rows = .ok b) (hlex : lex.words = b.words) (hj : us[j]? = some (own, lex))
+    (i : Nat) (wi : Word) (hi28 : i < P28) (hwi : D.set.getWordInfo (mkRaw (1 + j) i) = .ok wi) :
+    ∀ t ∈ wi.a ++ wi.b ++ wi.w,
+      (dicOf t = 0 ∨ dicOf t = 1 + j) ∧
+      ∃ l x, D.set.lexicons[dicOf t]? = some l ∧ l.words[wordOf t]? = some x := by
+  obtain ⟨_, _, _, hok, _, _, _, hsys0, husers⟩ := load_spec sys sysLex plugs us D hload
+  obtain ⟨hlexj, _⟩ := husers j own lex hj
+  have hjlt : j < us.length := by
+    by_cases hlt : j < us.length
+    · exact hlt
+    · rw [List.getElem?_eq_none (by omega)] at hj; cases hj
+  have h15 : 1 + j < 16 := by have := hok.2.1; unfold MAXD at this; omega
+  have hdic : dicOf (mkRaw (1 + j) i) = 1 + j := dicOf_mkRaw _ i h15
+  have hword : wordOf (mkRaw (1 + j) i) = i := wordOf_mkRaw _ i hi28
+  obtain ⟨lx, stored, hl, hw, _, ha, hb', hws⟩ := getWordInfo_inv D.set _ wi (by rw [hdic]; exact h15) hwi
+  rw [hdic] at hl ha hb' hws
+  rw [hword] at hw
+  rw [hlexj] at hl
+  cases hl
+  simp only at hw
+  obtain ⟨hlen, hrange⟩ := stored_references_in_range v base rows b hb
+  have hmem : stored ∈ b.words := by rw [← hlex]; exact List.mem_of_getElem? hw
+  have key : ∀ u ∈ stored.a ++ stored.b ++ stored.w,
+      (dicOf (restamp (1 + j) u) = 0 ∨ dicOf (restamp (1 + j) u) = 1 + j) ∧
+      ∃ l x, D.set.lexicons[dicOf (restamp (1 + j) u)]? = some l ∧ l.words[wordOf (restamp (1 + j) u)]? = some x := by
+    intro u hu
+    rcases hrange stored hmem u hu with ⟨h0, hlt⟩ | ⟨h1, hlt⟩
+    · rw [restamp_sys _ u h0]
+      refine ⟨Or.inl h0, _, sysLex.words[wordOf u]'(by omega), by rw [h0]; exact hsys0, ?_⟩
+      simp only
+      rw [List.getElem?_eq_getElem]
+    · obtain ⟨q1, q2⟩ := restamp_user (1 + j) u h15 (by omega)
+      rw [q1, q2]
+      refine ⟨Or.inr rfl, _, lex.words[wordOf u]'(by rw [hlex, hlen]; exact hlt), hlexj, ?_⟩
+      simp only
+      rw [List.getElem?_eq_getElem]
+  intro t ht
+  rw [ha, hb', hws] at ht
+  simp only [List.mem_append, List.mem_map] at ht
+  rcases ht with (⟨u, hu, rfl⟩ | ⟨u, hu, rfl⟩) | ⟨u, hu, rfl⟩
+  · exact key u (by simp [hu])
+  · exact key u (by simp [hu])
+  · exact key u (by simp [hu])
+
+/-- Inline references (formerly tied by correspondence only): the word an inline unit `surface,POS,reading` of a user
+dictionary resolves to (`ChainedResolver`: own entries, then the prebuilt dictionary) is an OWN entry with exactly that
+surface, POS id and reading — the first one, stored as `(1, i)` — whenever any own entry matches; otherwise the first
+word of the prebuilt dictionary whose headword, POS id and reading match, stored as `(0, i)`; a reading equal to the
+surface/headword compares as absent on both sides. -/
+theorem inline_reference_resolves_to_matching_entry (es : List Entry) (ws : List SysWord) (s p : Nat)
+    (r : Option Nat) (w : Nat) (h : resolveChained (rawIndex es true) (binIndex ws) s p r = some w) :
+    (∃ i e, es[i]? = some e ∧ e.surface = s ∧ e.pos = p ∧ noneIfEqual e.surface e.reading = r ∧ w = mkRaw 1 i) ∨
+    ((∀ e ∈ es, ¬ (e.surface = s ∧ e.pos = p ∧ noneIfEqual e.surface e.reading = r)) ∧
+      ∃ i x, ws[i]? = some x ∧ x.headword = s ∧ x.pos = p ∧ noneIfEqual x.headword x.reading = r ∧ w = mkRaw 0 i) := by
+  simpa using resolveChained_sound es ws true s p r w h
 
 /-! ## parts of speech -/
 
@@ -365,6 +515,38 @@ theorem declared_pos_reported_plain_base (v : PreVariant) (sys : List Pos) (sw :
   exact declared_pos_reported_prefix_base sys [] sw sysLex plugs us D hload hnd hle hsmall j rows b own lex hb' hown hlex
     hj i row hi hi28
 
+/-! ## `Grammar::merge` and the positional rebasing -/
+
+/-- `Grammar::merge` appends the whole own-POS table of the user dictionary, entry for entry, ALSO when an entry repeats a
+POS the grammar already holds (a plugin-registered POS, a POS of an earlier user dictionary): entry `i` of the table lands
+at position `|grammar| + i`, which is what `pos_id − num_system_pos + pos_offsets[d]` computes.  (`pos_rebase_correct`
+and `declared_pos_reported` are stated for arbitrary lists — no "no duplicates between the layers" hypothesis.) -/
+theorem merge_keeps_repeated_pos (g other : List Pos) :
+    (grammarMerge g other).length = g.length + other.length ∧
+    (∀ i, i < g.length → (grammarMerge g other)[i]? = g[i]?) ∧
+    (∀ i, (grammarMerge g other)[g.length + i]? = other[i]?) := by
+  unfold grammarMerge
+  refine ⟨by simp, fun i hi => List.getElem?_append_left hi, fun i => ?_⟩
+  rw [List.getElem?_append_right (by omega)]
+  simp
+
+/-- What `seeded/C12a` gets wrong, as a theorem about the variant (NOT the code): a merge that skips the POS the grammar
+already holds breaks the rebasing as soon as a user dictionary repeats a plugin-registered POS.  System POS `[P0]`, plugin
+POS `X`, own table `[X, Y]` (stored ids 1 and 2, offset 2): the real merge gives `[P0, X, X, Y]` and the rebased ids 2, 3
+name `X`, `Y`; the skipping merge gives `[P0, X, Y]`, where id 2 names `Y` and id 3 is outside the list. -/
+theorem merge_skipping_known_counterexample :
+    let P0 : Pos := [0, 0, 0, 0, 0, 0]
+    let X : Pos := [1, 0, 0, 0, 0, 0]
+    let Y : Pos := [2, 0, 0, 0, 0, 0]
+    (∃ D, load [P0] ⟨[], 255, []⟩ [(true, X)] [([X, Y], ⟨[⟨1, [], [], []⟩, ⟨2, [], [], []⟩], 255, []⟩)] = .ok D ∧
+      D.posList = [P0, X, X, Y] ∧ D.set.posOffsets = [0, 2] ∧
+      D.set.getWordInfo (mkRaw 1 0) = .ok ⟨2, [], [], []⟩ ∧ D.posList[2]? = some X ∧
+      D.set.getWordInfo (mkRaw 1 1) = .ok ⟨3, [], [], []⟩ ∧ D.posList[3]? = some Y) ∧
+    grammarMergeSkip [P0, X] [X, Y] = [P0, X, Y] ∧
+    (grammarMergeSkip [P0, X] [X, Y])[2]? = some Y ∧ (grammarMergeSkip [P0, X] [X, Y])[3]? = none := by
+  refine ⟨⟨_, rfl, ?_⟩, by decide, by decide, by decide⟩
+  decide
+
 /-! ## system words -/
 
 /-- Clause "data reported for system words is unaffected by the presence of user dictionaries": with the same system
@@ -391,6 +573,91 @@ theorem system_unaffected (sys : List Pos) (sysLex : Lexicon) (plugs : List (Boo
   · intro i hi
     rw [hext, List.getElem?_append_left hi]
 
+/-! ## the order of the load steps: connection edits, cost estimates, merges -/
+
+/-- The full `from_cfg_storage` (`Model/LayersLoad.lean`: connection-cost plugins validated, OOV plugins registering POS,
+"no OOV plugin" test, connection edits, then per user dictionary `update_cost` → `append` → `merge`) computes the same
+dictionary — POS list, lexicon set — as `Layers.load`, so every theorem above is about the full load too; all connection
+edits are in force at the end. -/
+theorem load_full_refines_load (est : LoadState → Nat → Outcome (Int × Nat)) (sys : List Pos) (sysLex : Lexicon)
+    (sysCosts : List Int) (nl nr : Nat) (conn : List (List (Nat × Nat))) (plugs : List (Bool × Pos)) (nOov : Nat)
+    (users : List UserDic) (F : LoadState)
+    (h : loadFull est sys sysLex sysCosts nl nr conn plugs nOov users = .ok F) :
+    load sys sysLex plugs (users.map UserDic.proj) = .ok F.dict ∧ F.inhibited = conn.flatten ∧
+    conn.all (pairsValid nl nr) = true ∧ nOov ≠ 0 := by
+  obtain ⟨set, g, ids, h1, h2, h3, h4, h5⟩ := loadFull_inv est sys sysLex sysCosts nl nr conn plugs nOov users F h
+  obtain ⟨r1, r2, _⟩ := mergeAllFull_spec est users _ F h5
+  refine ⟨?_, r2, h2, h4⟩
+  unfold load
+  rw [h1, h3]
+  exact r1
+
+/-- ORDER of the load steps.  The cost column of the (j+1)-th user dictionary is what `update_cost` computes with the
+tokenizer running over the state `S_j` that the SAME load reaches with only the first `j` user dictionaries: system
+dictionary, plugin POS, ALL connection edits (`InhibitConnection` runs before any user dictionary is looked at), `1 + j`
+lexicons — not the dictionary being merged, not the later ones. -/
+theorem cost_estimated_on_prefix (est : LoadState → Nat → Outcome (Int × Nat)) (sys : List Pos) (sysLex : Lexicon)
+    (sysCosts : List Int) (nl nr : Nat) (conn : List (List (Nat × Nat))) (plugs : List (Bool × Pos)) (nOov : Nat)
+    (users : List UserDic) (F : LoadState)
+    (h : loadFull est sys sysLex sysCosts nl nr conn plugs nOov users = .ok F)
+    (j : Nat) (u : UserDic) (hj : users[j]? = some u) :
+    ∃ Sj cs, loadFull est sys sysLex sysCosts nl nr conn plugs nOov (users.take j) = .ok Sj ∧
+      Sj.inhibited = conn.flatten ∧ Sj.dict.set.lexicons.length = 1 + j ∧
+      updateCost (est Sj) u.params = .ok cs ∧ F.costs[1 + j]? = some cs := by
+  obtain ⟨set, g, ids, h1, h2, h3, h4, h5⟩ := loadFull_inv est sys sysLex sysCosts nl nr conn plugs nOov users F h
+  obtain ⟨Sj, cs, a, b, c⟩ := mergeAllFull_prefix est users _ F h5 j u hj
+  have hl : loadFull est sys sysLex sysCosts nl nr conn plugs nOov (users.take j) = .ok Sj := by
+    rw [loadFull_of est sys sysLex sysCosts nl nr conn plugs nOov (users.take j) set g ids h1 h2 h3 h4]
+    exact a
+  obtain ⟨q1, q2, _, _⟩ := load_full_refines_load est sys sysLex sysCosts nl nr conn plugs nOov (users.take j) Sj hl
+  obtain ⟨_, _, _, _, _, _, hlen, _⟩ := load_spec sys sysLex plugs _ Sj.dict q1
+  have hjlt : j < users.length := by
+    by_cases hlt : j < users.length
+    · exact hlt
+    · rw [List.getElem?_eq_none (by omega)] at hj; cases hj
+  refine ⟨Sj, cs, hl, q2, ?_, b, ?_⟩
+  · rw [hlen]; simp; omega
+  · simpa [Nat.add_comm] using c
+
+/-- What `update_cost` writes: a stored cost other than `i16::MIN` is kept; `i16::MIN` is replaced by
+`clamp_i16(internal cost + (−20) · morphemes)` of the headword's analysis, a value inside the `i16` range. -/
+theorem declared_cost_kept (est : Nat → Outcome (Int × Nat)) (ps : List Param) (cs : List Int)
+    (h : updateCost est ps = .ok cs) :
+    cs.length = ps.length ∧ ∀ (w : Nat) (p : Param), ps[w]? = some p →
+      (p.cost ≠ -32768 → cs[w]? = some p.cost) ∧
+      (p.cost = -32768 → ∃ ic n c, est p.surface = .ok (ic, n) ∧ cs[w]? = some c ∧
+        c = max (min (ic + -20 * (n : Int)) 32767) (-32768) ∧ -32768 ≤ c ∧ c ≤ 32767) := by
+  obtain ⟨hl, hall⟩ := updateCost_spec est ps cs h
+  refine ⟨hl, fun w p hp => ⟨(hall w p hp).1, ?_⟩⟩
+  intro hm
+  obtain ⟨ic, n, he, hc⟩ := (hall w p hp).2 hm
+  exact ⟨ic, n, _, he, hc, rfl, clampI16_range _⟩
+
+/-- Clause "data reported for system words is unaffected by the presence of user dictionaries", for the word parameters:
+the cost column of the system lexicon after the load is the stored one whatever user dictionaries follow (`update_cost`
+is applied to user lexicons only — a system row stored with `i16::MIN` keeps it), and the costs of the first `j+1` user
+dictionaries do not depend on the dictionaries loaded after them. -/
+theorem costs_unaffected_by_later_dictionaries (est : LoadState → Nat → Outcome (Int × Nat)) (sys : List Pos)
+    (sysLex : Lexicon) (sysCosts : List Int) (nl nr : Nat) (conn : List (List (Nat × Nat))) (plugs : List (Bool × Pos))
+    (nOov : Nat) (users users' : List UserDic) (F F' : LoadState)
+    (h : loadFull est sys sysLex sysCosts nl nr conn plugs nOov users = .ok F)
+    (h' : loadFull est sys sysLex sysCosts nl nr conn plugs nOov users' = .ok F') :
+    F.costs[0]? = some sysCosts ∧ F'.costs[0]? = some sysCosts ∧
+    ∀ j u, users[j]? = some u → users'[j]? = some u → users.take j = users'.take j → F.costs[1 + j]? = F'.costs[1 + j]? := by
+  obtain ⟨set, g, ids, h1, h2, h3, h4, h5⟩ := loadFull_inv est sys sysLex sysCosts nl nr conn plugs nOov users F h
+  obtain ⟨set', g', ids', h1', h2', h3', h4', h5'⟩ := loadFull_inv est sys sysLex sysCosts nl nr conn plugs nOov users' F' h'
+  obtain ⟨_, _, css, _, r4⟩ := mergeAllFull_spec est users _ F h5
+  obtain ⟨_, _, css', _, r4'⟩ := mergeAllFull_spec est users' _ F' h5'
+  refine ⟨by rw [r4]; rfl, by rw [r4']; rfl, ?_⟩
+  intro j u hj hj' htake
+  obtain ⟨Sj, cs, a, _, _, b, c⟩ := cost_estimated_on_prefix est sys sysLex sysCosts nl nr conn plugs nOov users F h j u hj
+  obtain ⟨Sj', cs', a', _, _, b', c'⟩ := cost_estimated_on_prefix est sys sysLex sysCosts nl nr conn plugs nOov users' F' h' j u hj'
+  rw [htake, a'] at a
+  cases a
+  rw [b'] at b
+  cases b
+  rw [c, c']
+
 /-! ## finding: a user dictionary compiled against a dictionary whose plugins registered POS -/
 
 /-- The POS clause is FALSE for the pinned builder (`PreVariant.all`, the unchanged code) when the user dictionary was
@@ -415,6 +682,57 @@ theorem plugin_base_counterexample :
       D.set.getWordInfo (mkRaw 1 1) = .ok ⟨2, [], [], []⟩ ∧ D.posList[2]? = some Y := by
   refine ⟨⟨_, rfl, by decide, by decide⟩, by decide, _, rfl, ?_⟩
   decide
+
+/-! ## finding P2: more than 65 536 parts of speech after the merges -/
+
+/-- The POS clause is FALSE once the merged POS list outgrows `u16` (finding P2).  `register_pos` refuses the 65 537th entry,
+but `Grammar::merge` appends a user dictionary's table without any limit, and `get_word_info_subset` narrows the rebased id
+with `as u16`: for EVERY load, a word of dictionary `j+1` whose own POS sits at position
+`S + Q + Σ U_{<j+1} + (p − S) ≥ 65 536` of the loaded list is reported with that number modulo 65 536 — an id below 65 536
+that names an entry of the system dictionary / an earlier layer.  Second part: such loads exist and succeed (one user
+dictionary with 65 537 own POS over an empty system list; on the real code: three user dictionaries with 30 000 own POS
+each, see reports/C12.md). -/
+theorem pos_id_wraps_beyond_u16_counterexample :
+    (∀ (sys : List Pos) (sysLex : Lexicon) (plugs : List (Bool × Pos)) (us : List (List Pos × Lexicon)) (D : Dict),
+      load sys sysLex plugs us = .ok D →
+      ∃ plug ids, loadPlugins sys plugs = .ok (sys ++ plug, ids) ∧
+      ∀ (j : Nat) (own : List Pos) (lex : Lexicon), us[j]? = some (own, lex) →
+      ∀ (w : Nat) (stored : Word), lex.words[w]? = some stored → w < P28 → sys.length ≤ stored.posId →
+        65536 ≤ sys.length + plug.length + (ownBefore us j).length + (stored.posId - sys.length) →
+        ∃ wi, D.set.getWordInfo (mkRaw (1 + j) w) = .ok wi ∧
+          wi.posId = (sys.length + plug.length + (ownBefore us j).length + (stored.posId - sys.length)) % 65536 ∧
+          wi.posId ≠ sys.length + plug.length + (ownBefore us j).length + (stored.posId - sys.length)) ∧
+    (∃ D, load [] ⟨[], 255, []⟩ [] [(List.replicate 65537 [0, 0, 0, 0, 0, 0], ⟨[⟨65536, [], [], []⟩], 255, []⟩)] = .ok D ∧
+      D.posList.length = 65537 ∧
+      ∃ wi, D.set.getWordInfo (mkRaw 1 0) = .ok wi ∧ wi.posId = 0) := by
+  constructor
+  · intro sys sysLex plugs us D hload
+    obtain ⟨plug, ids, hpl, _, hrb⟩ := pos_rebase_correct sys sysLex plugs us D hload
+    refine ⟨plug, ids, hpl, ?_⟩
+    intro j own lex hj w stored hw hw28 hge hbig
+    obtain ⟨wi, hwi, _, husr⟩ := hrb j own lex hj w stored hw hw28
+    refine ⟨wi, hwi, ?_, ?_⟩
+    · rw [(husr hge).1]; rfl
+    · rw [(husr hge).1]; unfold asU16; omega
+  · have aux : ∀ own : List Pos, own.length = 65537 →
+        ∃ D, load [] ⟨[], 255, []⟩ [] [(own, ⟨[⟨65536, [], [], []⟩], 255, []⟩)] = .ok D ∧
+          D.posList.length = 65537 ∧ ∃ wi, D.set.getWordInfo (mkRaw 1 0) = .ok wi ∧ wi.posId = 0 := by
+      intro own hown
+      obtain ⟨D, hD⟩ := load_accepts_fourteen [] ⟨[], 255, []⟩ []
+        [(own, ⟨[⟨65536, [], [], []⟩], 255, []⟩)] [] [] rfl (by simp)
+      obtain ⟨plug, ids, hpl, hpos, hrb⟩ := pos_rebase_correct _ _ _ _ D hD
+      have hplug : plug = [] := by
+        have : loadPlugins [] [] = .ok (([] : List Pos), ([] : List Nat)) := rfl
+        rw [this] at hpl
+        have := (Prod.mk.inj (Outcome.ok.inj hpl)).1
+        simpa using this.symm
+      subst hplug
+      obtain ⟨wi, hwi, _, husr⟩ := hrb 0 _ _ rfl 0 ⟨65536, [], [], []⟩ rfl (by unfold P28; omega)
+      refine ⟨D, hD, by rw [hpos]; simp [hown], wi, hwi, ?_⟩
+      have := (husr (by simp)).1
+      rw [this]
+      simp [ownBefore, asU16]
+    exact aux _ (List.length_replicate ..)
 
 /-! ## non-vacuity -/
 
@@ -459,6 +777,40 @@ example :
       [⟨20, 20, 20, 2, [3], [.inline 21 [4] 21, .ref false 0], [], []⟩, ⟨21, 21, 21, 0, [4], [], [], []⟩] =
       .ok ⟨2, [[4], [3]], [⟨3, [mkRaw 1 1, mkRaw 0 0], [], []⟩, ⟨2, [], [], []⟩]⟩ := by
   refine ⟨by decide, by decide⟩
+
+/-- the hypotheses of the load-order theorems are satisfiable, and the order is visible in the numbers: one
+`InhibitConnection` plugin with two pairs, two user dictionaries each with one `i16::MIN` row and one declared cost; the
+"tokenizer" answers (100·lexicons + inhibited cells, 2 morphemes), so the estimates show the state they were taken on:
+dictionary 1 over 1 lexicon and 2 edits (102 − 40), dictionary 2 over 2 lexicons and 2 edits (202 − 40). -/
+example :
+    ∃ F, loadFull (fun st _ => .ok (100 * (st.dict.set.lexicons.length : Int) + (st.inhibited.length : Int), 2))
+        [[1]] ⟨[⟨0, [], [], []⟩], 255, []⟩ [7] 3 3 [[(0, 1), (2, 2)]] [(true, [7, 7, 7, 7, 7, 7])] 1
+        [⟨[], ⟨[⟨0, [], [], []⟩, ⟨0, [], [], []⟩], 255, []⟩, [⟨5, -32768⟩, ⟨6, 11⟩]⟩,
+         ⟨[], ⟨[⟨0, [], [], []⟩, ⟨0, [], [], []⟩], 255, []⟩, [⟨5, 12⟩, ⟨6, -32768⟩]⟩] = .ok F ∧
+      F.costs = [[7], [62, 11], [12, 162]] ∧ F.inhibited = [(0, 1), (2, 2)] := by
+  refine ⟨_, rfl, ?_⟩
+  decide
+
+/-- an `inhibitPair` outside the matrix fails the load before any POS is registered; no OOV plugin fails it after -/
+example :
+    loadFull (fun _ _ => .ok (0, 0)) [[1]] ⟨[], 255, []⟩ [] 3 3 [[(3, 0)]] [(false, [9])] 1 [] = .err .invalidData ∧
+    loadFull (fun _ _ => .ok (0, 0)) [[1]] ⟨[], 255, []⟩ [] 3 3 [[(2, 0)]] [] 0 [] = .err .noOovPlugin :=
+  ⟨rfl, rfl⟩
+
+/-- the hypotheses of `stored_references_in_range` / `split_targets_exist` / `inline_reference_resolves_to_matching_entry`
+are satisfiable together: base with system POS `[[1],[2]]` and one word; a user dictionary whose first row has an inline
+unit (resolving to its own second row, stored `(1, 1)`) and a numeric unit (system word 0); loaded as dictionary 2 of a
+stack of two, the set reports the targets `(2, 1)` and `(0, 0)`, both existing words. -/
+example :
+    let rows : List Row := [⟨20, 20, 20, 2, [3], [.inline 21 [4] 21, .ref false 0], [], []⟩, ⟨21, 21, 21, 0, [4], [], [], []⟩]
+    let ws : List Word := [⟨3, [mkRaw 1 1, mkRaw 0 0], [], []⟩, ⟨2, [], [], []⟩]
+    buildUser .sysOnly ⟨[[1], [2]], 2, [⟨10, 0, 10⟩]⟩ rows = .ok ⟨2, [[4], [3]], ws⟩ ∧
+    resolveChained (rawIndex [⟨20, 20, 20, 3, [], [], []⟩, ⟨21, 21, 21, 2, [], [], []⟩] true) (binIndex [⟨10, 0, 10⟩]) 21 2 none
+      = some (mkRaw 1 1) ∧
+    ∃ D, load [[1], [2]] ⟨[⟨0, [], [], []⟩], 255, []⟩ [] [([], ⟨[], 255, []⟩), ([[4], [3]], ⟨ws, 255, []⟩)] = .ok D ∧
+      D.set.getWordInfo (mkRaw 2 0) = .ok ⟨3, [mkRaw 2 1, mkRaw 0 0], [], []⟩ := by
+  refine ⟨by decide, by decide, _, rfl, ?_⟩
+  decide
 
 /-- `IdsOk` is inhabited by a set with 15 lexicons, so `fifteenth_rejected` is about a reachable state -/
 example : ∃ s : LexSet, IdsOk s ∧ s.lexicons.length = 15 :=
